@@ -473,6 +473,21 @@ def check_callers(ctx, rep):
                   and any(isinstance(x, ast.Call) and self_attr(x.func) in refresh_names for b in n.stmt.body for x in ast.walk(b))]
         dom = bool(guards) and cfg.dominates(guards[0], cfg.node_of(st_call))
         on_transform = self_attr(c.func.value) == 'transform'
+        # the value returned is computed for the current (x, y) on every path: either the call lies on every path to the return, or the
+        # cache that lets a path skip it is invalidated by the parameter-change handler (sentinel cache, decided with the C11.H machinery)
+        call_node = cfg.node_of(st_call)
+        every_path = cfg.must_pass(cfg.entry, cfg.exit, [call_node])
+        if not every_path:
+            from props import c11
+            flags = c11.find_flags(cls)
+            hp = cls.resolve('handle_parameter_changed')
+            ssum = c11.summarize(ctx, cls, hp[0], hp[1]) if hp else None
+            sentinels = [f for f, e in flags.items() if any(fn2 is fn for _, fn2, _ in e['guards'])]
+            invalidated = bool(sentinels) and ssum is not None and all((f, flags[f]['dirty']) in ssum.sets for f in sentinels)
+            rep.check('C07.C', key + '::recomputed-for-the-current-value', invalidated, W, {'caches': sentinels},
+                      f"{key} can return a stored log-Jacobian without calling transform.log_abs_det_jacobian, and the cache {sentinels} is not "
+                      f"invalidated when the parameter changes: after an update followed by any other accessor that clears the stale flag, "
+                      f"the log-Jacobian of the previous value is returned")
         rep.check('C07.C', key, first_is_x and cached is not None and refresh_ok and dom and on_transform, W,
                   {'call': norm_text(c), 'cached_forward_value': cached, 'refreshed_by': refresh_names, 'refresh_dominates': dom},
                   f"{key} must (after refreshing a stale cache) return self.transform.log_abs_det_jacobian(self.{xattr}.tensor, <cached forward value of the same tensor>) "
